@@ -189,6 +189,9 @@ fn do_spec(r: &mut Report, stream: &str, classes: &[AClass], jar: &MemJar, use_o
 	let text = g_jar(classes);
 	let expected = oracle::ref_pairs(classes);
 	let fresh = r.eval(&format!("spec {text}"), !expected.is_empty());
+	// the hierarchy work-lists run over a user-supplied graph: should they not terminate (or exhaust the memory),
+	// `check` reports this text as the failing input
+	fbh::report::crumb(&replay_text("Jar::get_specialized_methods did not return (endless loop, memory exhaustion or crash)", classes, &[], None, "nothing"));
 	let got = impl_spec(jar);
 	match &got {
 		Err(p) => { r.violation(format!("get_specialized_methods panicked: {p}"), replay_text("get_specialized_methods panicked", classes, &[], None, p)); return; }
@@ -227,11 +230,15 @@ fn do_spec(r: &mut Report, stream: &str, classes: &[AClass], jar: &MemJar, use_o
 }
 
 /// one (jar, libraries, calamus, mappings) through add_specialized_methods_to_mappings
-fn do_add(r: &mut Report, stream: &str, g: &JarGen, jar: &MemJar, libs: &[MemJar], cal: &MMappings, maps: &MMappings, use_oracle: bool) {
+fn do_add(r: &mut Report, stream: &str, g: &JarGen, jar: &MemJar, libs: &[MemJar], cal: &MMappings, maps: &MMappings, use_oracle: bool) { do_add_opt(r, stream, g, jar, libs, cal, maps, use_oracle, true) }
+
+/// `with_case` = false: implementation and oracle only, no correspondence case
+fn do_add_opt(r: &mut Report, stream: &str, g: &JarGen, jar: &MemJar, libs: &[MemJar], cal: &MMappings, maps: &MMappings, use_oracle: bool, with_case: bool) {
 	let text = format!("{} {} {} {}", g_jar(&g.classes), glist(g.libs.iter().map(|l| g_jar(l))), g_mappings(cal), g_mappings(maps));
 	let expected = oracle::ref_pairs(&g.classes);
 	let fresh = r.eval(&format!("add {text}"), !expected.is_empty() && !maps.classes.is_empty());
 	let mut desync = vec![];
+	fbh::report::crumb(&replay_text("add_specialized_methods_to_mappings did not return (endless loop, unbounded recursion, memory exhaustion or crash)", &g.classes, &g.libs, Some((cal, maps)), "nothing"));
 	let got = impl_add(jar, libs, cal, maps, &mut desync);
 	let got = match got {
 		Err(p) if p.starts_with("harness:") => { r.count("add:skipped-unconvertible"); return; }
@@ -243,23 +250,18 @@ fn do_add(r: &mut Report, stream: &str, g: &JarGen, jar: &MemJar, libs: &[MemJar
 		r.violation(what.clone(), replay_text(&what, &g.classes, &g.libs, Some((cal, maps)), "see above"));
 	}
 	match &got {
-		None => {
-			r.count("add:Err");
-			if use_oracle { r.violation("add_specialized_methods_to_mappings returned Err on well-formed input".into(), replay_text("returned Err on well-formed input", &g.classes, &g.libs, Some((cal, maps)), &last_err())); }
-		}
-		Some(m) => {
-			let changed = m != maps;
-			r.count(if changed { "add:changed" } else { "add:unchanged" });
-			if use_oracle {
-				let dev = oracle::check_add(&g.classes, &g.libs, cal, maps, m);
-				if !dev.is_empty() {
-					let what = format!("produced mappings deviate from the documented rule: {}", dev.join(" | "));
-					r.violation(what.clone(), replay_text(&what, &g.classes, &g.libs, Some((cal, maps)), &g_mappings(m)));
-				}
-			}
+		None => r.count("add:Err"),
+		Some(m) => r.count(if m != maps { "add:changed" } else { "add:unchanged" }),
+	}
+	if use_oracle {
+		let dev = oracle::check_add(&g.classes, &g.libs, cal, maps, got.as_ref());
+		if !dev.is_empty() {
+			let what = format!("produced mappings deviate from the documented rule: {}", dev.join(" | "));
+			let shown = match &got { Some(m) => g_mappings(m), None => last_err() };
+			r.violation(what.clone(), replay_text(&what, &g.classes, &g.libs, Some((cal, maps)), &shown));
 		}
 	}
-	if fresh {
+	if fresh && with_case {
 		r.case(stream, intern(&format!("CAdd {} {}", text, gres(got.as_ref().map(g_mappings)))));
 	}
 }
@@ -332,6 +334,7 @@ fn big_corpus(r: &mut Report, rng: &mut Rng, thorough: bool) {
 		let abs: Vec<AClass> = classes.iter().map(|c| c.0.clone()).collect();
 		let jar = mem_jar(&classes);
 		// a class duke's reader rejects is C01/C16's business: such a jar cannot be compared here
+		fbh::report::crumb(&format!("property C15\nwhat: Jar::get_specialized_methods did not return on the classes of corpus directory {dir}\n"));
 		match impl_spec(&jar) { Ok(None) => { r.count("corpus2:jar-not-readable-by-duke"); continue; } _ => {} }
 		r.count("corpus2:jars");
 		r.count_n("corpus2:classes", abs.len() as u64);
@@ -345,10 +348,32 @@ fn big_corpus(r: &mut Report, rng: &mut Rng, thorough: bool) {
 	}
 }
 
+/// A work-list that never ends grows its output vector without bound: the process gets an address-space and a CPU
+/// limit, so that such a run dies quickly (failed allocation = abort; SIGXCPU) with the crumb of the input in place
+/// instead of exhausting the machine.  (`setrlimit` of the C library std links anyway; Linux numbering.)
+fn limit_resources(thorough: bool) {
+	#[repr(C)] struct Rlimit { cur: u64, max: u64 }
+	extern "C" { fn setrlimit(resource: i32, rlim: *const Rlimit) -> i32; }
+	const RLIMIT_CPU: i32 = 0; const RLIMIT_AS: i32 = 9;
+	if cfg!(all(target_os = "linux", target_pointer_width = "64")) {
+		unsafe {
+			setrlimit(RLIMIT_AS, &Rlimit { cur: 4 << 30, max: 4 << 30 });
+			// the whole run takes 1-2 s of CPU in the quick tier and some 15 s in the thorough one
+			let cpu = if thorough { 400 } else { 60 };
+			setrlimit(RLIMIT_CPU, &Rlimit { cur: cpu, max: cpu });
+		}
+	}
+}
+
+/// whether jars with a cyclic hierarchy also go through add_specialized_methods_to_mappings (its remapper searches the
+/// super types recursively: quill/src/remapper.rs, property C06)
+const CYCLIC_ADD: bool = true;
+
 fn run(ctx: &Ctx) -> anyhow::Result<Report> {
+	limit_resources(ctx.thorough);
 	let mut r = Report::new("C15", "C15.Run");
 	r.shard_size = 60;
-	r.rule = "jars are class files assembled in memory (own JVMS assembler, harness/src/bin/c15/asm.rs) from an abstract description: acyclic hierarchies over a pool of 10 in-jar and 6 external class names, per class a few patterns — flagged bridges, unflagged synthetics with generalised (Object / ancestor / external / equal) parameter and return types, and the near-misses not-synthetic, zero / two / repeated / array-class callees, arity mismatch, incompatible type, void-vs-value, private|static|final with and without the bridge flag, no Code, delegate in another class, a further bridge in a related class invoking the identical delegate reference, invokedynamic instructions beside / instead of the invoke, array element covariance as a candidate — ; a `dag` stream of multi-parent hierarchies inside the jar (2-3 super types per class in random order, redundant edges to an ancestor, no external super types) with unflagged synthetics whose parameter / return types are in-jar ancestors of the delegate's types (or, as near misses, non-ancestors); deterministic shapes (harness/src/bin/c15/det.rs): diamonds with every order of every parent list (shared ancestor first / middle / last; first parent as super class or interface) and the bound reached only through a later entry, at a parameter, second parameter, return type, both, unflagged and flagged, with the mapping sets of the seeded demonstration; two-level diamonds; towers of 3 / 6 / 9 diamonds (up to 2045 work-list steps); array candidates; 2-3 bridges in super class / subclass / unrelated class in several jar orders sharing one delegate reference; the bridge key named differently in two super types (both parent orders, depth-first through a super type's super class, differing intermediary names, no name at all, no row for the bridge's class) with hand-built mapping sets; bodies with invokedynamic — plus the vendored javac-17 bridge classes of corpus/C15 (covariant returns, parameters erased to Object and to a bound, interface bridges, bridges through several levels, visibility bridges, lambdas/enum synthetics; abstract view from javap, confirmed by the independent parser) with /repo's fixtures, and every directory of the shared corpus /verif/corpus/classes as one jar (abstract view from the independent parser fbh::classfile::raw; quick tier: the 40 first directories, bridge classes first). Mapping sets: calamus (official->intermediary) and mappings (intermediary->named) naming each class / method involved with a per-case probability, delegate entries with javadoc and parameters, bridge keys named only in a super type or under different names in every super type (own entry removed), unrelated entries; extra streams: duplicate class / method keys, exchanged namespace order, wrong namespace names. Distinct = distinct (abstract jar, libraries, mapping sets); non-trivial = the documented rule yields at least one bridge pair (and, for the insertion, the mappings are not empty).".into();
+	r.rule = "jars are class files assembled in memory (own JVMS assembler, harness/src/bin/c15/asm.rs) from an abstract description (bodies are printed to the model as instruction lists: the four invokes with their references and interface-constant flag, invokedynamic, IOther): acyclic hierarchies over a pool of 10 in-jar and 6 external class names, per class a few patterns — flagged bridges, unflagged synthetics with generalised (Object / ancestor / external / equal) parameter and return types, and the near-misses not-synthetic, zero / two / repeated / array-class callees, arity mismatch, incompatible type, void-vs-value, private|static|final with and without the bridge flag, no Code, delegate in another class, a further bridge in a related class invoking the identical delegate reference, invokedynamic instructions beside / instead of the invoke, array element covariance as a candidate — ; a `dag` stream of multi-parent hierarchies inside the jar (2-3 super types per class in random order, redundant edges to an ancestor, no external super types) with unflagged synthetics whose parameter / return types are in-jar ancestors of the delegate's types (or, as near misses, non-ancestors); deterministic shapes (harness/src/bin/c15/det.rs): diamonds with every order of every parent list (shared ancestor first / middle / last; first parent as super class or interface) and the bound reached only through a later entry, at a parameter, second parameter, return type, both, unflagged and flagged, with the mapping sets of the seeded demonstration; two-level diamonds; towers of 3 / 6 / 9 diamonds and tall towers of 40 / 64 diamonds (2^42 and 2^66 paths: detection with a correspondence case, insertion judged by the oracle only); ten CYCLIC hierarchy shapes in both jar orders (self loops through super class / interface, 2- and 3-cycles, a cycle below the start, behind a second parent, through a class outside the jar, two cycles sharing a class, a diamond inside a cycle) with every in-jar class as bound of an unflagged synthetic and flagged bridges sharing a delegate inside the cycle, each with mapping sets naming all / none / some methods (cyclic inheritance met by a remapper lookup = Err); 74 bodies for what counts as an invocation (each of the four opcodes with Methodref / InterfaceMethodref constants, the same target through two and through all four opcodes, the delegate's name and descriptor on another owner / on an array class / only on an array class per opcode, other descriptor, other name, invokedynamic between invokes); 60 arity cases (the synthetic's parameter list a proper prefix / extension of the delegate's with every common position and the return type compatible, down to zero parameters, in both directions; same-arity controls; flagged controls; delegate under the same / another name); 28 foreign-owner cases (the delegate owned by the super class / an interface / an unrelated class of the jar / a library class with and without the library jar / java/lang/Object, by invokespecial / invokeinterface / invokestatic / invokevirtual, flagged and unflagged) with four hand-built mapping sets each (rows for both classes; the delegate already named in both; only the owner's row; the bridge's name inherited from the owner's row); array candidates; 2-3 bridges in super class / subclass / unrelated class in several jar orders sharing one delegate reference; the bridge key named differently in two super types (both parent orders, depth-first through a super type's super class, differing intermediary names, no name at all, no row for the bridge's class) with hand-built mapping sets; bodies with invokedynamic — plus the vendored javac-17 bridge classes of corpus/C15 (covariant returns, parameters erased to Object and to a bound, interface bridges, bridges through several levels, visibility bridges, lambdas/enum synthetics; abstract view from javap, confirmed by the independent parser) with /repo's fixtures, and every directory of the shared corpus /verif/corpus/classes as one jar (abstract view from the independent parser fbh::classfile::raw; quick tier: the 40 first directories, bridge classes first). Mapping sets: calamus (official->intermediary) and mappings (intermediary->named) naming each class / method involved with a per-case probability, delegate entries with javadoc and parameters, bridge keys named only in a super type or under different names in every super type (own entry removed), unrelated entries; extra streams: duplicate class / method keys, exchanged namespace order, wrong namespace names, a method / field descriptor that the remapper's map_desc refuses. Distinct = distinct (abstract jar, libraries, mapping sets); non-trivial = the documented rule yields at least one bridge pair (and, for the insertion, the mappings are not empty).".into();
 	let mut rng = Rng::new(ctx.seed);
 
 	corpus(&mut r, &mut rng)?;
@@ -361,9 +386,26 @@ fn run(ctx: &Ctx) -> anyhow::Result<Report> {
 		let jar = mem_jar(&files);
 		r.count(&format!("det:{}", d.label.split(|c: char| c == ' ' || c == ':').next().unwrap_or("")));
 		do_spec(&mut r, "det", &d.g.classes, &jar, wf);
+		if d.label.starts_with("cycle:") && !CYCLIC_ADD { continue; }
+		// tall towers: the MODEL of the remapper's super-type search (coq/C15/Model.v map_method_fail, depth-first without
+		// memo; the answers of quill's search, which since /repo 20b1d86 searches a class once per query, are the same —
+		// C06_memo_sound) walks every path of the hierarchy, 2^(k+2) steps on k diamonds: the insertion is run on the
+		// implementation and judged by the oracle, without a correspondence case
+		if d.label.starts_with("tall tower") {
+			for name_12 in [0, 6, 12] {
+				let (cal, maps) = gen_maps(&mut rng, &d.g, &MapCfg { name_12, swap_calamus: false, swap_named: false, absent_class_names: false });
+				do_add_opt(&mut r, "det-add-tall", &d.g, &jar, &[], &cal, &maps, wf, false);
+			}
+			continue;
+		}
 		if d.maps.is_empty() {
-			let (cal, maps) = gen_maps(&mut rng, &d.g, &MapCfg { name_12: 10, swap_calamus: false, swap_named: false, absent_class_names: false });
-			do_add(&mut r, "det-add", &d.g, &jar, &[], &cal, &maps, wf);
+			// cyclic hierarchies: mapping sets that name everything (every lookup ends at the owner), nothing (every lookup
+			// runs into the cycle: an error) and some of it
+			let densities: &[usize] = if d.label.starts_with("cycle:") { &[12, 0, 6, 9] } else { &[10] };
+			for &name_12 in densities {
+				let (cal, maps) = gen_maps(&mut rng, &d.g, &MapCfg { name_12, swap_calamus: false, swap_named: false, absent_class_names: false });
+				do_add(&mut r, "det-add", &d.g, &jar, &[], &cal, &maps, wf);
+			}
 		}
 		for (cal, maps) in &d.maps { do_add(&mut r, "det-add", &d.g, &jar, &[], cal, maps, wf); }
 	}
@@ -371,7 +413,7 @@ fn run(ctx: &Ctx) -> anyhow::Result<Report> {
 	let n = if ctx.thorough { 2400 } else { 300 };
 	let mut counts: Vec<String> = vec![];
 	for i in 0..n {
-		let stream = match i % 20 { 0..=8 => "patterns", 9..=13 => "dag", 14 | 15 => "large", 16 | 17 => "dups", 18 => "swapped", _ => "badns" };
+		let stream = match i % 20 { 0..=8 => "patterns", 9..=13 => "dag", 14 | 15 => "large", 16 | 17 => "dups", 18 => "swapped", _ => if i % 40 == 39 { "baddesc" } else { "badns" } };
 		let cfg = match stream {
 			"large" => JarCfg { max_classes: 8, max_patterns: 14, dups: false, libs: true, dag: i % 40 >= 20 },
 			"dups" => JarCfg { max_classes: 4, max_patterns: 8, dups: true, libs: false, dag: false },
@@ -393,6 +435,20 @@ fn run(ctx: &Ctx) -> anyhow::Result<Report> {
 			let mut oracle_ok = wf;
 			if stream == "swapped" { mcfg.swap_calamus = rng.chance(2, 3); mcfg.swap_named = !mcfg.swap_calamus || rng.chance(1, 3); oracle_ok = false; }
 			let (mut cal, mut maps) = gen_maps(&mut rng, &g, &mcfg);
+			if stream == "baddesc" {
+				// a descriptor the remapper's map_desc refuses (`L;`, or a class name without its semicolon) in some entry of
+				// one of the two mapping sets: outside the contract of the mapping tree (its readers validate descriptors), an
+				// error of the function as a whole
+				oracle_ok = false;
+				let bad = cps_str(*rng.pick(&["(L;)V", "(LA", "(ILp/F", "L;", "(LA;L;)LA;", "()L"][..]));
+				let target = if rng.chance(1, 2) { &mut cal } else { &mut maps };
+				let n = target.classes.len();
+				if n > 0 {
+					let c = &mut target.classes[rng.below(n)];
+					if !c.methods.is_empty() && rng.chance(2, 3) { let k = rng.below(c.methods.len()); c.methods[k].desc = bad; }
+					else { c.fields.push(MField { desc: bad, names: vec![Some(cps_str("g")), Some(cps_str("g_1"))], doc: None }); }
+				}
+			}
 			if stream == "badns" {
 				oracle_ok = false;
 				match rng.below(3) { 0 => cal.ns[1] = cps_str("calamus"), 1 => maps.ns[1] = cps_str("feather"), _ => maps.ns[0] = cps_str("official") }
